@@ -1,4 +1,5 @@
 import RV.Proofs.Kepler
+import RV.Proofs.KeplerTerm
 /-
   C03 — Kepler propagation is exact for every two-body orbit and time step.
 
@@ -147,5 +148,183 @@ theorem c03_fg_radial_velocity (h : KeplerStep M dt r0 X p g) (rne : newR M r0 p
   exact fg_eta_sc r0 _ (xv p) _ M X dt g.c0 g.c1 g.c2 g.c3 (vv p) h0 h1 hk
     (by simp only [newR, e3, e4]) r0ne rne (by field_simp; ring)
 
+/-- the Laplace–Runge–Lenz vector is unchanged -/
+theorem c03_fg_laplace (h : KeplerStep M dt r0 X p g) (rne : newR M r0 p g ≠ 0) :
+    let q := fgUpdate M (1 / r0) (1 / newR M r0 p g) dt g.c1 g.c2 g.c3 p
+    Ax M (newR M r0 p g) q = Ax M r0 p ∧ Ay M (newR M r0 p g) q = Ay M r0 p ∧
+    Az M (newR M r0 p g) q = Az M r0 p := by
+  have hE := c03_fg_energy h rne
+  have hV := c03_fg_radial_velocity h rne
+  obtain ⟨hr0, r0ne, ⟨h0, h1, h2⟩, hk⟩ := h
+  obtain ⟨e1, e2, e3, e4⟩ := invariants_eq M r0 p
+  obtain ⟨c1, c2, c3, c4⟩ := fgCoeffs_eq M r0 (newR M r0 p g) dt g.c1 g.c2 g.c3
+  rw [e2] at h0 h1 hE; rw [e3, e4] at hk hV
+  have hr : newR M r0 p g = r0 + xv p * g.c1 + (M - (2 * M * (1 / r0) - vv p) * r0) * g.c2 := by
+    simp only [newR, e3, e4]
+  have l1 := fg_laplace1_sc r0 _ (xv p) _ M g.c0 g.c1 g.c2 h0 h2 hr r0ne rne
+  have l2 := fg_laplace2_sc r0 _ (xv p) _ M X dt g.c0 g.c1 g.c2 g.c3 h0 h1 h2 hk hr rne
+  have hvp : vv p - M / r0 = M / r0 - (2 * M * (1 / r0) - vv p) := by field_simp; ring
+  intro q
+  have hvq : vv q - M / newR M r0 p g = M / newR M r0 p g - (2 * M * (1 / r0) - vv p) := by
+    linear_combination -hE
+  have hf : (fgCoeffs M (1 / r0) (1 / newR M r0 p g) dt g.c1 g.c2 g.c3).f = -(M * g.c2 / r0) := by
+    linear_combination c1
+  have hgd : (fgCoeffs M (1 / r0) (1 / newR M r0 p g) dt g.c1 g.c2 g.c3).gd = -(M * g.c2 / newR M r0 p g) := by
+    linear_combination c4
+  refine ⟨?_, ?_, ?_⟩
+  · simp only [Ax]; rw [hvq, hvp]
+    show _ * q.x - xv q * q.vx = _
+    rw [hV]
+    simp only [q, fgUpdate, fgApply, sc_hadd, sc_hmul, hf, hgd, c2, c3]
+    linear_combination p.x * l1 + p.vx * l2
+  · simp only [Ay]; rw [hvq, hvp]
+    show _ * q.y - xv q * q.vy = _
+    rw [hV]
+    simp only [q, fgUpdate, fgApply, sc_hadd, sc_hmul, hf, hgd, c2, c3]
+    linear_combination p.y * l1 + p.vy * l2
+  · simp only [Az]; rw [hvq, hvp]
+    show _ * q.z - xv q * q.vz = _
+    rw [hV]
+    simp only [q, fgUpdate, fgApply, sc_hadd, sc_hmul, hf, hgd, c2, c3]
+    linear_combination p.z * l1 + p.vz * l2
+
+/-- **the step moves the particle along its own conic** (summary of the above): same energy,
+    same angular momentum vector, same Laplace vector (hence same orbit as a point set, same
+    orientation), at the point of radius `r0 + η0 G1 + ζ0 G2`.
+    `_partial`: the hypotheses `KeplerStep` — that the numbers `g` produced by
+    series+duplication+scaling satisfy the G-relations *exactly* and that the iteration
+    returned an exact root `X` of `r0 X + η0 G2 + ζ0 G3 = dt` — hold in exact arithmetic
+    only up to the series truncation (`c03_series_truncation_residual`) and are not proved
+    for the Newton/quartic/bisection iterates; with IEEE doubles everything holds to
+    rounding, which the search measures.  That the point reached is the one at time
+    `t + dt` is the (unproved, analytic) meaning of the universal Kepler equation. -/
+theorem c03_kepler_step_same_conic_partial (h : KeplerStep M dt r0 X p g) (rne : newR M r0 p g ≠ 0) :
+    let r' := newR M r0 p g
+    let q := fgUpdate M (1 / r0) (1 / r') dt g.c1 g.c2 g.c3 p
+    rr q = r' ^ 2 ∧ 2 * M / r' - vv q = 2 * M / r0 - vv p ∧
+    (Lx q = Lx p ∧ Ly q = Ly p ∧ Lz q = Lz p) ∧
+    (Ax M r' q = Ax M r0 p ∧ Ay M r' q = Ay M r0 p ∧ Az M r' q = Az M r0 p) := by
+  refine ⟨c03_fg_radius h, ?_, c03_fg_angular_momentum h rne, c03_fg_laplace h rne⟩
+  rw [c03_fg_energy h rne, (invariants_eq M r0 p).2.1]
+  ring
+
 end fg
+
+/-! ### stumpff_cs (six functions, used by the tangent map) -/
+
+/-- the loop body of stumpff_cs (lines 99-104) preserves the relations
+    `c1 = 1 − z c3, c2 = 1/2 − z c4, c3 = 1/6 − z c5, c1² = (1+c0) c2` with `z ↦ 4z` -/
+theorem c03_stumpff6_duplication {s : Cs5 K} (h : Stumpff6Rel s) :
+    Stumpff6Rel (cs6DupStep s) ∧ (cs6DupStep s).z = 4 * s.z := ⟨cs6DupStep_rel h, cs6DupStep_z s⟩
+
+/-- on the first four functions stumpff_cs performs exactly the duplication of stumpff_cs3 -/
+theorem c03_stumpff6_agrees_with_cs3 {s : Cs5 K} (h : Stumpff6Rel s) :
+    cs5To3 (cs6DupStep s) = cs3DupStep (cs5To3 s) ∧ StumpffRel s.z (cs5To3 s) :=
+  ⟨cs6DupStep_cs3 h, cs5To3_rel h⟩
+
+/-- the series part of stumpff_cs satisfies the three linear relations by construction -/
+theorem c03_stumpff6_series (z : K) :
+    (cs6Series z).z = z ∧ (cs6Series z).c1 = 1 - z * (cs6Series z).c3 ∧
+    (cs6Series z).c2 = 1 / 2 - z * (cs6Series z).c4 ∧ (cs6Series z).c3 = 1 / 6 - z * (cs6Series z).c5 ∧
+    (cs6Series z).c5 = 1/120 - z/5040 + z^2/362880 - z^3/39916800 + z^4/6227020800 - z^5/1307674368000 ∧
+    (cs6Series z).c4 = 1/24 - z/720 + z^2/40320 - z^3/3628800 + z^4/479001600 - z^5/87178291200 := by
+  obtain ⟨f0, f1, f2, f3, f4, f5, f6, f7, f8, f9, f10, f11, f12, f13, f14, f15⟩ := fact_vals
+  refine ⟨rfl, ?_, ?_, ?_, ?_, ?_⟩ <;>
+  · simp only [cs6Series, invfact_eq, sc_hsub, sc_hmul, Fin.isValue]
+    norm_num [Nat.factorial]
+    try ring
+
+/-! ### mass parameter handed to the solver by reb_whfast_kepler_step -/
+section mass
+variable (G m0 pj0m : K) (nact : Nat) (ms : List K)
+
+/-- one mass parameter per particle 1 … N_real-1 -/
+theorem c03_mass_parameter_count (c : Coord) : (massParams c G m0 pj0m nact ms).length = ms.length := by
+  simp [massParams, etas_length]
+
+/-- Jacobi: `M_i = G (m0 + Σ_{1≤k≤min(i, N_active-1)} m_k)` — the interior mass, test
+    particles (i ≥ N_active) see all active masses.  (`ms[k-1] = p_j[k].m`, `nact = N_active-1`) -/
+theorem c03_mass_parameter_jacobi (i : Nat) (h : i < ms.length) :
+    (massParams .jacobi G m0 pj0m nact ms)[i]? = some ((m0 + (ms.take (min (i + 1) nact)).sum) * G) := by
+  simp only [massParams, etas, List.getElem?_map, jacobiEtas_get m0 nact ms i h, Option.map_some, sc_hmul]
+
+/-- democratic heliocentric: `M_i = G m0` for every particle -/
+theorem c03_mass_parameter_dh (i : Nat) (h : i < ms.length) :
+    (massParams .dh G m0 pj0m nact ms)[i]? = some (m0 * G) := by
+  simp [massParams, etas, h]
+
+/-- WHDS: `M_i = G (m0 + m_i)` for active particles, `G m0` for test particles -/
+theorem c03_mass_parameter_whds (i : Nat) (h : i < ms.length) :
+    (massParams .whds G m0 pj0m nact ms)[i]? = some ((if i < nact then m0 + ms[i] else m0) * G) := by
+  simp only [massParams, List.getElem?_map, whds_get m0 pj0m nact ms i h, Option.map_some, sc_hmul]
+
+/-- barycentric: `M_i = G · p_j[0].m` (slot 0 of the barycentric set carries the total mass, C12) -/
+theorem c03_mass_parameter_barycentric (i : Nat) (h : i < ms.length) :
+    (massParams .bary G m0 pj0m nact ms)[i]? = some (pj0m * G) := by
+  simp [massParams, etas, h]
+
+end mass
+
+/-! ### termination -/
+
+/-- Newton (≤ WHFAST_NMAX_NEWT-1 passes) and quartic (≤ WHFAST_NMAX_QUART-1 passes) loops
+    are bounded: for every scalar type, `Float` included, whenever they return they have made
+    at most `rem` further iterations. -/
+theorem c03_newton_quartic_bounded {F : Type} [KScalar F] (c : Ctx F) (rem : Nat) :
+    (∀ X oldX gs ri it mh r, newtLoop c rem X oldX gs ri it mh = .ok r → r.2.2.2.2.1 ≤ it + rem) ∧
+    (∀ X prev gs it mh r, quartLoop c rem X prev gs it mh = .ok r → r.2.2.2.1 ≤ it + rem) :=
+  ⟨newtLoop_iters c rem, quartLoop_iters c rem⟩
+
+section term
+variable {R : Type} [Field R] [LinearOrder R] [IsStrictOrderedRing R] [Archimedean R]
+
+/-- the argument-halving loop `while(fabs(z)>thr){z=z/4;n++}` (threshold `thr` = 0.1 in the
+    pinned source, and divisor, as extracted from the source) exits for every `z` of an
+    Archimedean ordered field, after `n` passes with `thr·4^(n-1) < |z|` (so
+    `n ≤ ⌈log₄(|z|/thr)⌉ + 1`), leaving `|z/4ⁿ| ≤ thr`.
+    `fin` is the extra loop condition (`true` in the pinned source, `isfinite` with the proposed
+    fix; every element of such a field is finite).
+    `_partial`: the full-strength statement "for every double `z`" is FALSE of the code:
+    `z = ±inf` (not an element of an Archimedean field) never leaves the loop — finding F14;
+    the Float model reports it as fuel exhaustion (`Hang.stumpff`) and the compiled solver
+    was observed to hang on the same inputs. -/
+theorem c03_halving_terminates_partial (fin : R → Bool) (hfin : ∀ x, fin x = true) (z : R) :
+    ∃ n : Nat, (∀ fuel, n + 1 ≤ fuel →
+        halve (fun x => |x|) (lit thrCs3.1 thrCs3.2 : R) (lit divCs3.1 divCs3.2) fin fuel z 0 = some (z / 4 ^ n, n)) ∧
+      |z / 4 ^ n| ≤ (thrCs3.1 : R) / (thrCs3.2 : R) ∧ (∀ j < n, (thrCs3.1 : R) / (thrCs3.2 : R) * 4 ^ j < |z|) := by
+  have e1 : (lit thrCs3.1 thrCs3.2 : R) = (thrCs3.1 : R) / (thrCs3.2 : R) := lit_eq _ _
+  have e2 : (lit divCs3.1 divCs3.2 : R) = 4 := by simp [lit_eq, divCs3]
+  have hp : 0 < thrCs3.1 ∧ 0 < thrCs3.2 := by decide
+  have hthr : (0 : R) < (thrCs3.1 : R) / (thrCs3.2 : R) :=
+    div_pos (Nat.cast_pos.2 hp.1) (Nat.cast_pos.2 hp.2)
+  obtain ⟨n, h1, h2, h3⟩ := halve_terminates ((thrCs3.1 : R) / (thrCs3.2 : R)) 4 fin hfin hthr (by norm_num) z
+  refine ⟨n, ?_, h2, h3⟩
+  intro fuel hf
+  rw [e1, e2, h1 fuel hf 0]; simp
+
+end term
+
+/-! ### the hypotheses are satisfiable (concrete, non-degenerate rational instances) -/
+
+/-- Stumpff relations at z = 1: (c0,c1,c2,c3) = (3/5, 4/5, 2/5, 1/5) -/
+example : StumpffRel (1 : ℚ) ⟨3/5, 4/5, 2/5, 1/5⟩ := by
+  constructor <;> norm_num
+
+/-- an eccentric orbit: x = (3,4,0), v = (1,0,1), M = 15/2 (β = 1, η0 = 3, ζ0 = 5/2),
+    X = 1, G = (3/5,4/5,2/5,1/5), dt = 67/10, new radius 42/5 ≠ 0 -/
+example : KeplerStep (15/2 : ℚ) (67/10) 5 1 ⟨3, 4, 0, 1, 0, 1⟩ ⟨3/5, 4/5, 2/5, 1/5⟩ ∧
+    newR (15/2 : ℚ) 5 ⟨3, 4, 0, 1, 0, 1⟩ ⟨3/5, 4/5, 2/5, 1/5⟩ = 42/5 := by
+  have e := invariants_eq (15/2 : ℚ) 5 ⟨3, 4, 0, 1, 0, 1⟩
+  obtain ⟨e1, e2, e3, e4⟩ := e
+  refine ⟨⟨by norm_num [rr], by norm_num, ⟨?_, ?_, ?_⟩, ?_⟩, ?_⟩
+  · rw [e2]; norm_num [vv]
+  · rw [e2]; norm_num [vv]
+  · norm_num
+  · rw [e3, e4]; norm_num [vv, xv]
+  · simp only [newR]; rw [e3, e4]; norm_num [vv, xv]
+
+/-- six-function relations at z = 1 -/
+example : Stumpff6Rel (⟨1, 4/5, 2/5, 1/5, 1/10, -1/30⟩ : Cs5 ℚ) := by
+  constructor <;> norm_num
+
 end RV.Kepler
